@@ -622,7 +622,7 @@ func runAff2(m *Model, r *RuleResult) {
 				}
 				two := false
 				for _, c := range p.cond {
-					if strings.Contains(c, "len("+l.valVar+".ns) == 2") && !strings.HasPrefix(c, "!") {
+					if (strings.Contains(c, "len("+l.valVar+".ns) == 2") || strings.Contains(c, "len("+l.valVar+".ns) + -1 == 1")) && !strings.HasPrefix(c, "!") {
 						two = true
 					}
 				}
